@@ -328,6 +328,20 @@ func normalise(o *Obs, scope map[string]bool) {
 	}
 	tail := o.Ev[k:]
 	sort.Slice(tail, func(i, j int) bool { return strings.Join(tail[i], " ") < strings.Join(tail[j], " ") })
+	// the VMs run one line concurrently: their runtime errors come in any order
+	for i := 0; i < len(o.Ev); {
+		j := i
+		for j < len(o.Ev) && len(o.Ev[j]) > 0 && o.Ev[j][0] == "rterr" {
+			j++
+		}
+		if j > i {
+			run := o.Ev[i:j]
+			sort.Slice(run, func(a, b int) bool { return strings.Join(run[a], " ") < strings.Join(run[b], " ") })
+			i = j
+		} else {
+			i++
+		}
+	}
 	for _, m := range []*map[string]int64{&o.Loads, &o.Unloads, &o.Lerr, &o.Rterr} {
 		if *m == nil {
 			*m = map[string]int64{}
